@@ -338,7 +338,8 @@ func Plans() map[string]*Plan {
 	// ---- C17
 	{
 		p := baseProfile()
-		p.W = map[string]int{OpAdd: 12, OpAutoCompact: 5, OpAddMulti: 1, OpCompactRange: 1, OpReopen: 1}
+		p.W = map[string]int{OpAdd: 12, OpAutoCompact: 5, OpAddMulti: 2, OpCompactRange: 1, OpReopen: 1}
+		p.BigMultiP = 0.35
 		p.MinOps, p.MaxOps = 6, 40
 		p.HandlesPerTask = 2
 		p.AutoP = 0.7
